@@ -33,7 +33,7 @@ _cvrp = [
     Lit("unvisited", "cell", key="visited", sign=-1, why="customers are visited exactly once"),
     Lit("capacity", "cmp", big={"vehicle_capacity"}, small={"demand", "used_capacity"}, strict=False, const=0,
         why="load never above capacity; a load exactly filling the vehicle is allowed"),
-    Lit("depot-after-depot", "eq", cells={"current_node"}, op="!=0", conj=False, alt=True, why="documented pruning: only depot->depot moves are pruned while customers are servable"),
+    Lit("depot-after-depot", "eq", cells={"current_node"}, op="!=0", conj=False, alt=True, optional=True, why="documented pruning: only depot->depot moves are pruned while customers are servable"),
 ]
 
 MASK = {
@@ -46,13 +46,13 @@ MASK = {
         Lit("demand-left", "eq", cells={"demand_with_depot"}, op="!=0", why="only customers with remaining demand"),
         Lit("room-left", "cmp", big={"vehicle_capacity"}, small={"used_capacity"}, strict=True, const=0,
             why="a full vehicle cannot deliver anything"),
-        Lit("depot-after-depot", "eq", cells={"current_node"}, op="!=0", conj=False, alt=True),
+        Lit("depot-after-depot", "eq", cells={"current_node"}, op="!=0", conj=False, alt=True, optional=True),
     ],
     "SVRPEnv": [
         Lit("unvisited", "cell", key="visited", sign=-1),
         Lit("skill", "cmp", big={"techs", "current_tech"}, small={"skills"}, strict=False, const=0,
             why="technician skill greater than or equal to the required skill"),
-        Lit("depot-after-depot", "eq", cells={"current_node"}, op="!=0", conj=False, alt=True),
+        Lit("depot-after-depot", "eq", cells={"current_node"}, op="!=0", conj=False, alt=True, optional=True),
         Lit("last-technician", "eq", cells={"current_tech"}, op="!=0", conj=False,
             why="the last technician must not return while customers remain: there is nobody left to send out"),
     ],
@@ -84,7 +84,7 @@ MASK = {
         Lit("is-backhaul", "cmp", big={"demand_backhaul"}, small=set(), strict=True, conj=False, const=0),
         Lit("no-linehaul-after-backhaul", "cmp", big=set(), small={"demand_backhaul", "current_node"}, strict=False, conj=False, const=0,
             conj_with="is-linehaul", why="linehauls before backhauls: not carrying backhaul when delivering"),
-        Lit("depot-after-depot", "eq", cells={"current_node"}, op="!=0", conj=False, alt=True),
+        Lit("depot-after-depot", "eq", cells={"current_node"}, op="!=0", conj=False, alt=True, optional=True),
     ],
     # (sign overrides for MTVRP are attached below the table)
     # incremental family: literals of the `action_mask` value written by `_step`
